@@ -207,7 +207,14 @@ class Identifier(Node):
         returns:
             str (CSS)
         """
-        name = ',$$'.join(''.join(p).strip() for p in self.parsed)
-        ws = fills['ws']
-        name = re.sub('\?(.)\?', lambda m: ws + m.group(1) + ws, name)
+        def mark(t):
+            # only the tokens that encode a combinator ('?>?', '?+?', '?~?')
+            # are decoded, never a '?' inside an attribute string
+            if len(t) == 3 and t[0] == '?' and t[2] == '?' and t[1] in '>+~':
+                return '\0%s\0' % t[1]
+            return t
+
+        name = ',$$'.join(''.join(mark(t) for t in p).strip()
+                          for p in self.parsed)
+        name = name.replace('\0', fills['ws'])
         return name.replace('$$', fills['nl']).replace('  ', ' ')
